@@ -34,6 +34,11 @@ pub struct Case {
     /// goes to it): time is conserved all the same
     #[serde(default)]
     pub extender: bool,
+    /// the host stops the machine with a breakpoint after this many instructions (somewhere inside a
+    /// frame) and pokes a byte into contended RAM before it lets it run on: a poke is not a CPU
+    /// access and takes no emulated time
+    #[serde(default)]
+    pub poke_after_instructions: Option<u16>,
 }
 
 const COUNTER: u16 = 0xB000;
@@ -150,6 +155,7 @@ fn case_strategy_with(max_frames: u8, port_reads: bool) -> impl Strategy<Value =
             iff,
             start_t,
             extender: calls.len() % 3 == 0 && port_reads,
+            poke_after_instructions: if start_t % 5 == 1 { Some((start_t >> 12) as u16 % 12_000) } else { None },
             calls,
             tape: 0,
             }
@@ -248,6 +254,44 @@ pub fn check(c: &Case, rec: &mut Rec) -> Result<(), String> {
         e.load_tape(rustzx_core::host::Tape::Tap(DynAsset::new(MemAsset::new(image)))).map_err(|x| format!("load_tape: {:?}", x))?;
         e.play_tape();
         rec.class(if c.tape % 3 == 2 { "tape-with-an-empty-block-playing" } else { "tape-playing" });
+    }
+    if let (Some(steps), 0) = (c.poke_after_instructions, c.tape % 3) {
+        e.debug_interface().unwrap().mode = BpMode::AfterCalls(steps as u64 + 1);
+        e.set_speed(EmulationMode::FrameCount(1000));
+        e.emulate_frames(LONG).map_err(|x| format!("emulate_frames: {:?}", x))?;
+        e.debug_interface().unwrap().mode = BpMode::Never;
+        let et = tb.emu_t(&e);
+        let mut guard = 0u64;
+        while m.bus.t < et {
+            m.step_fine();
+            guard += 1;
+            if guard > 80_000_000 {
+                return Err("model did not reach the emulator's position".into());
+            }
+        }
+        if m.bus.t != et {
+            let _ = m.catch_up(&mut e, &tb);
+        }
+        struct P([rustzx_core::poke::PokeAction; 1]);
+        impl rustzx_core::poke::Poke for P {
+            fn actions(&self) -> &[rustzx_core::poke::PokeAction] {
+                &self.0
+            }
+        }
+        let addr = 0x5B00 + (steps & 0xFF);
+        let before_t = tb.emu_t(&e);
+        e.execute_poke(P([rustzx_core::poke::PokeAction::mem(addr, steps as u8)]));
+        m.bus.mem.write(addr, steps as u8);
+        rec.eval();
+        if tb.emu_t(&e) != before_t {
+            return Err(format!(
+                "execute_poke({:#06x}) with the machine stopped at frame T {}: the frame clock moved by {} T-states — a poke takes no emulated time",
+                addr, before_t % frame_len, tb.emu_t(&e) as i64 - before_t as i64
+            ));
+        }
+        rec.class("host-poke-into-contended-ram-mid-frame");
+        // frames completed on the way to the breakpoint count from here on
+        target = e.verif_total_frames() - frames0;
     }
     let mut tape_errors = 0u32;
     for (k, n) in c.calls.iter().enumerate() {
@@ -451,7 +495,7 @@ pub fn replay(run: &mut Run, phase: &str, case: &serde_json::Value) -> Result<()
 }
 
 pub const LEVEL: &str = "exploration";
-pub const RULE: &str = "case = machine x program (loop of 1..40 generated blocks: ALU, loads, stack, HALT, EI/DI, DJNZ delays, LDIR, contended screen traffic, ULA port I/O, paging-port writes incl. the lock bit and writes after the lock) placed in uncontended, contended or paged RAM x interrupt handler (short filler+[EI]+RET that may re-enter within one pulse, or a self-counting handler of 0..1200 NOPs) x IM 0/1/2 x start T-state x 1..6 emulate_frames calls of 1..200 frames each; after EVERY call the emulator's (frame counter, frame clock, registers, halted) must equal the reference machine, whose clock is a single monotone T-state counter (frame = T div length, INT asserted iff T mod length < 32); all RAM compared at the end; in a third of the cases a host I/O extender claims the ports xxFE the programs use. programs-with-a-tape-playing: the same with a tape playing in real time (programs without port reads), in half of the cases a tape whose first block is empty, so that emulate_frames returns a tape error once and the host carries on with the remaining frames — time must be conserved all the same. evaluations = emulate_frames calls compared. non-trivial = run of >= 2 frames in which >= 1 instruction straddled a frame end with non-zero overrun; distinct = hash of the case";
+pub const RULE: &str = "case = machine x program (loop of 1..40 generated blocks: ALU, loads, stack, HALT, EI/DI, DJNZ delays, LDIR, contended screen traffic, ULA port I/O, paging-port writes incl. the lock bit and writes after the lock) placed in uncontended, contended or paged RAM x interrupt handler (short filler+[EI]+RET that may re-enter within one pulse, or a self-counting handler of 0..1200 NOPs) x IM 0/1/2 x start T-state x 1..6 emulate_frames calls of 1..200 frames each; after EVERY call the emulator's (frame counter, frame clock, registers, halted) must equal the reference machine, whose clock is a single monotone T-state counter (frame = T div length, INT asserted iff T mod length < 32); all RAM compared at the end; in a fifth of the cases the host first stops the machine with a breakpoint somewhere inside a frame and pokes a byte into contended RAM (which must take no emulated time); in a third of the cases a host I/O extender claims the ports xxFE the programs use. programs-with-a-tape-playing: the same with a tape playing in real time (programs without port reads), in half of the cases a tape whose first block is empty, so that emulate_frames returns a tape error once and the host carries on with the remaining frames — time must be conserved all the same. evaluations = emulate_frames calls compared. non-trivial = run of >= 2 frames in which >= 1 instruction straddled a frame end with non-zero overrun; distinct = hash of the case";
 pub const ASSUMPTIONS: &[&str] = &[
     "reference Z80 + contention model trusted (calibration, C03, C04)",
     "programs contain no prefix chains and no reads from unclaimed ports, so one emulate() call = optional interrupt entry + one instruction",
